@@ -282,6 +282,13 @@ Inductive gev :=
 (* request flags: what the checks before the filing decision see *)
 Record rflags := { f_decodable : bool; f_shard_ok : bool; f_old_agent : bool }.
 
+(* what the contributor of a bucket sees ON THE WIRE: an rpc error replaces the response body, so the discard bit of
+   a response that is sent together with an error never reaches the agent *)
+Definition insert_answer (ok : bool) (r : req) : gev :=
+  if negb ok && gen_insert_sends_err then GvError r else if gen_insert_discard ok then GvAck r else GvKeep r.
+Definition full_answer (r : req) : gev :=
+  if gen_full_err then GvError r else if gen_full_discard true then GvAck r else GvKeep r.
+
 Definition empty_bucket (t : Z) : bucket := {| b_time := t; b_contrib := []; b_merged := [] |}.
 Definition add_to_bucket (b : bucket) (r : req) : bucket :=
   {| b_time := b_time b; b_contrib := b_contrib b ++ [r]; b_merged := b_merged b ++ [r_key r] |}.
@@ -353,7 +360,7 @@ Fixpoint tick_ready (g : agg) (rd : list bucket) (room : list bool) : agg * list
       else match room with
            | true :: room' => tick_ready (set_queue g (g_queue g ++ [b])) rest room'
            | _ => let '(g1, ev) := tick_ready g rest (tl room) in
-                  (g1, map (fun r => if gen_full_discard true then GvAck r else GvKeep r) (b_contrib b) ++ ev)
+                  (g1, map full_answer (b_contrib b) ++ ev)
            end
   end.
 
@@ -401,7 +408,7 @@ Definition ginsert (g : agg) (ok : bool) (nhist : nat) (hw : Z) : agg * list gev
       let g1 := set_queue (set_ghist g rest) q in
       let evstale := flat_map (fun s => map (fun r => if gen_stale_discard ok then GvReject r JStale else GvKeep r) (b_contrib s)) stale in
       let body := flat_map b_merged batch in
-      let answers := flat_map (fun x => map (fun r => if gen_insert_discard ok then GvAck r else GvError r) (b_contrib x)) batch in
+      let answers := flat_map (fun x => map (insert_answer ok) (b_contrib x)) batch in
       (g1, evstale ++ [GvInsert ok body] ++ answers)
   end.
 
@@ -411,7 +418,7 @@ Inductive gop :=
 | GInsert (ok : bool) (nhist : nat) (hw : Z)
 | GCancel (rid : nat)                 (* CancelLongpoll: the client went away; merged data stays *)
 | GShutdown                           (* DisableNewInsert: bucketsToSend = nil *)
-| GRestart (now sw rk : Z).           (* process restart: everything in memory is lost, nobody is answered *)
+| GRestart (now sw : Z).              (* process restart: everything in memory is lost, nobody is answered *)
 
 Definition drop_contrib (rid : nat) (b : bucket) : bucket :=
   {| b_time := b_time b; b_contrib := filter (fun r => negb (Nat.eqb (r_id r) rid)) (b_contrib b); b_merged := b_merged b |}.
@@ -428,7 +435,7 @@ Definition gstep (g : agg) (o : gop) : agg * list gev :=
       ({| g_recent := map (drop_contrib rid) (g_recent g); g_hist := map (drop_contrib rid) (g_hist g);
           g_queue := map (drop_contrib rid) (g_queue g); g_rk := g_rk g; g_down := g_down g |}, [])
   | GShutdown => ({| g_recent := g_recent g; g_hist := g_hist g; g_queue := g_queue g; g_rk := g_rk g; g_down := true |}, [])
-  | GRestart now sw rk => (agg_init now sw rk, [])
+  | GRestart now sw => (agg_init now sw (g_rk g), [])
   end.
 
 Fixpoint grun (g : agg) (ops : list gop) : agg * list gev :=
@@ -487,3 +494,67 @@ Inductive sreach (s0 : sys) : sys -> Prop :=
 Definition sys_init (disk_on : bool) (now sw : Z) : sys :=
   {| s_agent := agent_init disk_on; s_aggs := [agg_init now sw 1; agg_init now sw 2; agg_init now sw 3];
      s_alog := []; s_glog := [] |}.
+
+(* ------------------------------------------------------------------ fault-free continuation ------------ *)
+(* [srun] executes a schedule on the composed system (no justification check: the schedules below only use answers
+   the aggregators have produced; Proofs show they are real [sstep]s). *)
+Definition sstep_fun (s : sys) (o : sop) : sys :=
+  match o with
+  | SAgent ao =>
+      let '(a', ev, _) := astep (s_agent s) ao in
+      {| s_agent := a'; s_aggs := s_aggs s; s_alog := s_alog s ++ ev; s_glog := s_glog s |}
+  | SAgg i go =>
+      match nth_error (s_aggs s) i with
+      | None => s
+      | Some g => let '(g', ev) := gstep g go in
+                  {| s_agent := s_agent s; s_aggs := replace_nth i (s_aggs s) g'; s_alog := s_alog s; s_glog := s_glog s ++ ev |}
+      end
+  end.
+Definition srun (s : sys) (ops : list sop) : sys := fold_left sstep_fun ops s.
+
+Definition ok_flags : rflags := {| f_decodable := true; f_shard_ok := true; f_old_agent := false |}.
+
+(* a clock at which every bucket of the replica's recent window is ready *)
+Definition flush_time (g : agg) (sw : Z) : Z := 1 + fold_right Z.max 0 (map (fun b => u32 (b_time b + sw)) (g_recent g)).
+
+(* what one replica does, with no faults, to serve one historic request r: its clock passes the whole current window
+   (every own bucket goes to the inserters), the request arrives, the clock passes the fresh window, and the inserters
+   work through the conveyor, every INSERT succeeding, taking the waiting historic buckets along *)
+Definition serve_ops (g : agg) (r : req) (sw hw : Z) : list gop :=
+  let t1 := flush_time g sw in
+  [GTick t1 sw (repeat true (length (g_recent g))); GRecv r ok_flags false hw; GTick (t1 + sw + 4) sw (repeat true (Z.to_nat (sw + future_window)))]
+  ++ repeat (GInsert true (S (length (g_hist g))) hw) (length (g_queue g) + length (g_recent g) + Z.to_nat (sw + future_window)).
+
+Definition hist_request (it : item) (rid : nat) : req := {| r_id := rid; r_key := it_key it; r_time := it_time it; r_hist := true |}.
+
+(* one round of the continuation for the second the historic sender holds (a_out) or pops next: replica i serves it,
+   the answer arrives, the agent consumes it *)
+Definition round_ops (s : sys) (i : nat) (it : item) (now sw hw : Z) : list sop :=
+  match nth_error (s_aggs s) i with
+  | None => []
+  | Some g => map (SAgg i) (serve_ops g (hist_request it (length (s_glog s))) sw hw) ++ [SAgent (OHistIter (it_key it) now hw ADiscard)]
+  end.
+
+(* the next second the historic conveyor works on, and the whole continuation: n rounds, the clock of round j being
+   clock j, the serving replica the primary of the second (all replicas up) *)
+Definition next_item (a : agent) (now : Z) : agent * option item :=
+  match a_out a with
+  | it :: _ => (a, Some it)
+  | [] => pop_oldest a now
+  end.
+
+Fixpoint drain (s : sys) (clock : nat -> Z) (sw hw : Z) (n : nat) : sys :=
+  match n with
+  | O => s
+  | S m =>
+      let now := clock O in
+      let '(a1, oi) := next_item (s_agent s) now in
+      let s1 := {| s_agent := a1; s_aggs := s_aggs s; s_alog := s_alog s; s_glog := s_glog s |} in
+      match oi with
+      | None => drain s1 (fun j => clock (S j)) sw hw m
+      | Some it => drain (srun s1 (round_ops s1 (Z.to_nat (primary_shift (it_time it))) it now sw hw)) (fun j => clock (S j)) sw hw m
+      end
+  end.
+
+(* explicit length of one round: the bound of the progress theorem *)
+Definition round_len (g : agg) (sw : Z) : nat := 4 + (length (g_queue g) + length (g_recent g) + Z.to_nat (sw + future_window)).
